@@ -10,8 +10,9 @@ succeed and its Path, after removing segment decoration ([i], {k}, [k]) and one-
 equal the expected path; for an undeclared key: the object's path, optionally followed by the key, and the
 message names the key.
 
-Verdict rule: VIOLATION for a rejection that is no constraint error or whose path is wrong.  Not C17: the valid
-input rejected / the faulty input accepted (C02 / C03), panics (C04), error wording.
+Verdict rule: VIOLATION for a rejection that is no constraint error or whose path is wrong.  A PANIC while
+a path vector is evaluated is a violation as well (divergence=panic, with the SDK frame): no error, no path.  Not C17:
+the valid input rejected / the faulty input accepted (C02 / C03), error wording.
 """
 import os, json
 from vlib import common
@@ -27,8 +28,11 @@ STATEMENT = ("When Unserialize or Validate rejects a value because of exactly on
 
 
 def sig_c17(sig):
-    return dict(op=sig.get("op"), kind_at_fault=sig.get("kind_at_fault"), arg_class=sig.get("arg_class"),
-                divergence=sig.get("divergence"), lost_at=sig.get("lost_at", ""))
+    out = dict(op=sig.get("op"), kind_at_fault=sig.get("kind_at_fault"), arg_class=sig.get("arg_class"),
+               divergence=sig.get("divergence"), lost_at=sig.get("lost_at", ""))
+    if sig.get("divergence") == "panic":
+        out["frame"] = sig.get("frame", "")
+    return out
 
 
 def consume_c17(ctx, lines, results):
@@ -42,7 +46,9 @@ def consume_c17(ctx, lines, results):
         for m in r.get("mismatches", []):
             sig = m["sig"]
             div = sig.get("divergence")
-            if div in ("not_constraint_error", "path"):
+            # a panic while rejecting the single fault is the strongest way of not naming the element: the caller gets no
+            # error at all (C04 reports the same crash from its own universe; here it is a violation of C17 too)
+            if div in ("not_constraint_error", "path", "panic"):
                 payload = base.replay_payload(base.parse_case(line), m)
                 payload["statement"] = STATEMENT
                 ctx.violation(sig_c17(sig), payload)
